@@ -360,7 +360,7 @@ func (ex *Exec) reflectValueMethod(s *State, rv *ReflectValue, m string, args []
 		switch v := ex.rvLoad(s, rv, site).(type) {
 		case *PtrV:
 			var gs []*Term
-			for _, a := range v.alts {
+			for _, a := range ex.eff(v) {
 				if a.obj == 0 {
 					gs = append(gs, a.g)
 				}
@@ -621,7 +621,7 @@ func (ex *Exec) fmtValue(s *State, t types.Type, v Value, g *Term, site string, 
 		if depth == 0 {
 			if _, ok := u.Elem().Underlying().(*types.Struct); ok {
 				p := v.(*PtrV)
-				for _, a := range p.alts {
+				for _, a := range ex.eff(p) {
 					if a.obj == 0 {
 						continue
 					}
